@@ -430,8 +430,16 @@ class TransformedParameter(AbstractParameter, Parametric, collections.abc.Callab
         self.listeners.append(listener)
 
     def fire_parameter_changed(self, index=None, event=None) -> None:
-        for listener in self.listeners:
-            listener.handle_parameter_changed(self, index, event)
+        # the transform may hold a model that itself listens to this parameter
+        # (a tree model whose heights are this parameter): do not notify in circles
+        if getattr(self, '_firing', False):
+            return
+        self._firing = True
+        try:
+            for listener in self.listeners:
+                listener.handle_parameter_changed(self, index, event)
+        finally:
+            self._firing = False
 
     @property
     def sample_shape(self) -> torch.Size:
